@@ -3,7 +3,7 @@
    read, whether the name is bound at that point).  ./check C17 judges rattr's own warnings with the
    Coq checkers `spurious` / `unwarned`.  Proved for all inputs: the warning decision and the scope-chain
    laws it rests on; the finding classes are kernel-checked on the model. *)
-From RattrV Require Import Base Str PyAst Naming Spell Context FuncAn Occurs Binding FaCheck FaSpecCheck FaFacts FaMono C01Proofs C17Proofs.
+From RattrV Require Import Base Str PyAst Naming Spell Context FuncAn Occurs Binding FaCheck FaSpecCheck FaFacts FaMono C01Proofs C17Proofs C01Complete C17Quiet.
 Open Scope string_scope.
 Open Scope list_scope.
 
@@ -47,3 +47,22 @@ Example C17_registered_binders : warns b_ok = [("int0", P0)].
 Proof. exact registered_binders_no_warning. Qed.
 Example C17_unbound_reads : warns b_warn = [("x", (1, 4)); ("x", (2, 0)); ("nowhere", (3, 0)); ("u", (5, 0))].
 Proof. exact unbound_reads_warned. Qed.
+
+(* ---------- whole expressions (proofs/C17Quiet.v) ---------- *)
+(* NO SPURIOUS WARNING on call-free load expressions of any depth (the fragment CF of proofs/C01Complete.v): when every
+   variable the expression mentions is visible in the scope chain c, the visit ends normally, adds no warning at all
+   and leaves the scope chain as it was - whatever the state holds otherwise *)
+Theorem C17_no_spurious_warning_on_call_free_loads :
+  forall mexists modulename c n, CF n -> visible c n ->
+    forall s, v_ctx s = c ->
+      fst (visit mexists modulename n s) = Ok tt
+      /\ v_warn (snd (visit mexists modulename n s)) = v_warn s
+      /\ v_ctx (snd (visit mexists modulename n s)) = c.
+Proof. exact call_free_loads_are_quiet. Qed.
+Print Assumptions C17_no_spurious_warning_on_call_free_loads.
+(* ... and a variable that is NOT visible is warned about, once, with its own position *)
+Theorem C17_unbound_variable_is_warned_about :
+  forall mexists modulename c id p s,
+    mem id ATTR_BUILTINS = false -> v_ctx s = c -> ctx_in c id = false -> starts_with LITERAL_PREFIX id = false ->
+    v_warn (snd (visit mexists modulename (EName id Load p) s)) = v_warn s ++ [(id, pos_of (EName id Load p))].
+Proof. exact unbound_variable_is_warned_about. Qed.
